@@ -270,9 +270,9 @@ K("N1.get_size", ["C11", "C12"], CB, "check_get_size", "CellBuffer::get_size",
 K("N1.get_size_default", ["C11", "C12"], CB, "check_get_size_default_scale", "CellBuffer::get_size",
   "at scale 8: exactly 8*(col+2) x 16*(row+2) for all cells < 2^17; empty => 16 x 32",
   assumes=["CellBuffer::bounds replaced by an opaque result"])
-K("C17.blank_filter", ["C17", "C04", "C15"], CB, "check_blank_filter_all_chars", "From<StringBuffer> for CellBuffer (cell filter predicate)",
-  "for every char: space, tab, CR, LF, NUL never become cells; every visible ASCII character does",
-  assumes=["the predicate `ch != NUL && !ch.is_whitespace()` is the one From<StringBuffer> applies (checked against the real function by the bounded stand-in T7)"])
+B("C17.blank_filter", ["C17", "C04", "C15", "C12"], CB, "bounded_cell_filter_all_chars", "From<&str> for CellBuffer / From<StringBuffer> for CellBuffer (the real conversion, not a restated predicate)",
+  "the row 'x', c, 'y' yields the cell of c (in column 1) iff c is neither NUL nor Unicode white space; 'y' sits after the display columns of c; nothing else is disturbed",
+  "exhaustive: every Unicode scalar value except the double quote, LF and CR (1 112 061 rows)")
 
 
 # ------------------------------------------------------------------------------------------------
@@ -355,7 +355,7 @@ B("sink.style_text", ["C02", "C08"], CB, "bounded_style_sink", "CellBuffer::styl
   "payloads of length <= 3 (thorough 4) over {<,&,>,],a,;,LF,U+0001,U+FFFE,\",'} in 3 channels: legend css, font family, stroke colour")
 B("C16.legend_css_format", ["C16"], CB, "bounded_legend_css_format", "CellBuffer::legend_css / add_css_styles",
   "'.svgbob .name{ decl }' per entry (also when a name repeats), in order, joined by newlines", "0..4 entries x 3 names x 4 declarations, every second list with a repeated name")
-B("C15.escape_line", ["C15", "C01", "C04", "C13"], CB, "bounded_escape_line", "CellBuffer::escape_line (on top of parser::line_parse)",
+B("C15.escape_line", ["C15", "C01", "C04", "C13", "C12"], CB, "bounded_escape_line", "CellBuffer::escape_line (on top of parser::line_parse)",
   "never panics; quoted segments found as '\"'..next '\"'; text stored verbatim (without fillers) at the opening quote's cell; "
   "the segment's columns, quotes included, blanked; everything else untouched",
   "all column-expanded rows of <= 6 tokens (thorough 7) over {\", a, |, space, e-acute, wide CJK + NUL filler, combining acute U+0301, TAB} (no backslash)")
@@ -404,7 +404,7 @@ B("C17.legend_cut_line_endings", ["C16", "C17", "C01"], CB, "bounded_legend_cut_
   "the legend is never drawn, the drawing before it is untouched, the rules come out in order, and CRLF input gives the same cells and rules as LF",
   "6 drawings (incl. box-drawing and wide characters) x 5 legends (incl. blank lines inside) x 4 trailing-blank variants x {LF, CRLF}")
 B("C16.tag_grammar", ["C16", "C08", "C04"], UTIL, "bounded_tag_grammar", "parser::parse_css_tag", "'{ident(,ident)*}' accepted with its names only when it is the whole text; malformed variants and labels that merely start with a tag rejected", "5 + 17 strings")
-B("T6.string_and_cell_buffer", ["C04", "C17", "C10"], CB, "bounded_string_and_cell_buffer", "From<&str> for StringBuffer / From<StringBuffer> for CellBuffer",
+B("T6.string_and_cell_buffer", ["C04", "C17", "C10", "C12", "C13"], CB, "bounded_string_and_cell_buffer", "From<&str> for StringBuffer / From<StringBuffer> for CellBuffer",
   "cells = the non-blank characters at the column where their display columns start (wide = 2 columns); LF/CRLF, trailing blanks and blank lines add nothing",
   "first row: all strings of <= 4 (thorough 5) tokens over {a, e-acute, wide CJK, space, -, TAB} x 3 second rows x {LF, CRLF} x 4 trailing-blank variants")
 
